@@ -44,7 +44,7 @@ claim("C01", "DESIGN.md 6 C01",
       "C01_join_resolves_under_wake_driven_executor: under an executor that fires every child's most recent waker and then polls, a join of n>=1 Pending*-then-Ready children returns its positional result within (longest script) rounds and never unwinds; C01_merge_first_result_under_wake_driven_executor: the stream form for merge (first item or end within that many rounds). "
       "C01_*_trace restate it over the observable trace (bookkeeping recomputed from the events); C01_fire_total_*: every handle ever handed out names an existing slot, so firing it never fails. "
       "Nests of combinators are covered by universality (an inner combinator is an arbitrary child, a sub-waker an arbitrary parent) and instantiated by the harness in monitor-only suites. "
-      "Partial: real thread interleavings are represented by the lock windows of the model (a wake is atomic with respect to a poll's critical sections)." + COMMON)
+      "Partial: real thread interleavings are represented by the lock windows of the model (a wake is atomic with respect to a poll's critical sections); the thorough tier exercises that assumption with real threads (mt-harness: 40 000 cases, every Pending child woken from a second OS thread, hang / panic / wrong result reported)." + COMMON)
 claim("C02", "DESIGN.md 6 C02",
       "Ledger theorems over the complete history closed by a drop (any drop point, a panic at any child poll, a poll after completion): every child dropped exactly once, "
       "every produced value returned xor dropped exactly once - join/try_join, merge, zip, both groups, chain, race, race_ok (successes and errors counted separately; "
